@@ -23,6 +23,10 @@ type blkOp struct {
 	cancel   context.CancelFunc
 	canceled bool // cancel() was invoked by the harness
 	deadline bool // the context carries a deadline (fake clock) instead
+	// the call was made with context.Background(): it can only be released
+	// by the operation it waits for or by Close (and the library has no
+	// context whose end would wake anybody as a side effect)
+	background bool
 }
 
 type blkTarget struct {
@@ -176,6 +180,9 @@ func c07Run(w *W, tg *blkTarget, prefill int) {
 	for i := 0; i < nCancel; i++ {
 		op := ops[simrt.Choose(len(ops))]
 		at := simrt.Choose(60)
+		if op.background {
+			continue
+		}
 		simrt.Spawn("fault:cancel", func() {
 			simrt.WaitStep(at)
 			op.canceled = true
@@ -198,7 +205,7 @@ func c07Run(w *W, tg *blkTarget, prefill int) {
 	}
 	// phase 2: cancel one blocked operation's context; it must return.
 	for _, op := range ops {
-		if op.state == 1 && !op.canceled && !op.deadline {
+		if op.state == 1 && !op.canceled && !op.deadline && !op.background {
 			op.canceled = true
 			op.cancel()
 			w.Fault("cancel-at-quiescence")
@@ -241,6 +248,11 @@ func (tg *blkTarget) byOdds() int {
 // c07Ctx gives a blocking operation its own context: cancellable, or (in the
 // deadline family) with a deadline on the fake clock.
 func c07Ctx(w *W, op *blkOp) (context.Context, context.CancelFunc) {
+	if simrt.Choose(4) == 0 {
+		op.background = true
+		w.Probe("background-context")
+		return context.Background(), func() {}
+	}
 	if w.wl.ClockJump > 0 && simrt.Choose(2) == 1 {
 		op.deadline = true
 		w.Fault("deadline")
